@@ -913,6 +913,7 @@ def clone_deep(ex, v):
 def default_for(ex, ty):
     if ty is None: raise Unsupported('Default without type')
     t = ty.strip(); s = simple_name(t)
+    if s in ('HashMap', 'BTreeMap', 'HashSet', 'BTreeSet'): return COLLECTORS[s](ex, [], t)
     if t in INT_RANGE: return 0
     if t == 'bool': return False
     if s == 'Vec': return VecV([])
@@ -992,3 +993,51 @@ def peekable_peek(ex, args):
         if it.i < len(it.items): return some(Ref(it.items, it.i))
         return none()
     raise Unsupported('peek on ' + type(it).__name__)
+
+
+@model(r'(?:core::str::|std::str::)?<impl str>::as_bytes|(?:std::string::)?String::as_bytes')
+def str_as_bytes(ex, args):
+    s = as_str(args[0])
+    out = []
+    for c in s.chars:
+        if not isinstance(c, int): raise Unsupported('as_bytes on symbolic chars')
+        out += list(chr(c).encode('utf-8'))
+    return SliceV(VecV(out, 'bytes'), 0, len(out))
+
+
+@model(r'BigInt::parse_bytes')
+def bigint_parse_bytes(ex, args):
+    buf = as_slice(args[0]); radix = args[1]
+    items = buf.elems()
+    if not all(isinstance(b, int) for b in items): raise Unsupported('parse_bytes on symbolic bytes')
+    try: txt = bytes(items).decode('utf-8')
+    except UnicodeDecodeError: return none()
+    txt2 = txt.replace('_', '')
+    try:
+        if txt2 in ('', '+', '-') : return none()
+        return some(BigV(int(txt2, radix)))
+    except ValueError: return none()
+
+
+@model(r'(?:std::cmp::|core::cmp::)?(max|min)::<(.*)>|<(.*) as Ord>::(max|min)')
+def generic_maxmin(ex, args, m):
+    """std::cmp::max/min through the type's own Ord::cmp (max returns the second argument when equal,
+    min the first)."""
+    from .engine import _dynamic_dispatch
+    k = m.group(1) or m.group(4)
+    a, b = args
+    c = _dynamic_dispatch(ex, 'Ord', 'cmp', 'Ord::cmp')(ex, [Ref([a], 0), Ref([b], 0)])
+    d = ex.discriminant(c)
+    if is_sym(d): raise Unsupported('symbolic Ordering in max/min')
+    if k == 'max': return a if d == 1 else b
+    return b if d == 1 else a
+
+
+@model(r'<num_bigint::BigInt as Zero>::is_zero|<BigInt as Zero>::is_zero|<BigInt as num_traits::Zero>::is_zero')
+def bigint_is_zero(ex, args):
+    a = big(args[0])
+    return simp(eq(a, 0))
+
+
+@model(r'<&?bool as (?:std::ops::)?Not>::not')
+def bool_not_model(ex, args): return simp(b_not(deref(args[0])))
